@@ -415,9 +415,12 @@ def pair_case(g, spec, variant, stream):
            "query_easting": spec["qe"], "query_northing": spec["qn"]}
     repro = mk_repro(spec)
     tol, kap, skip = tolk(g, spec, variant)
-    base = execute(spec)
+    try:
+        base = execute(spec)
+    except Exception as ex:  # noqa: the plain 1-D float64 execution must work
+        return Case(inp, {"base_raised": "%s: %s" % (type(ex).__name__, str(ex)[:200])}, "c04_raised", repro, stream)
     if not np.all(np.isfinite(base["flat"])):
-        raise RuntimeError("non-finite base prediction: %r" % (inp,))
+        return Case(inp, {"base_nonfinite": [repr(x) for x in base["flat"]]}, "c04_raised", repro, stream)
     if skip:
         return Case(inp, {"kappa": kap}, "Vskip", repro, stream + "/skip-illconditioned", nontrivial=False)
     try:
@@ -617,7 +620,7 @@ def npts(rnd, name):
 
 def generate(tier, seed):
     rnd = random.Random(seed)
-    reps = 1 if tier == "quick" else 8
+    reps = 1 if tier == "quick" else 24
     cases = []
     for rep in range(reps):
         for gi, name in enumerate(ALL):
